@@ -46,7 +46,7 @@ def run_property(prop: str, tier: str, repo=None, quiet: bool = False, write_evi
                 ctx.assume(a)
             for t in getattr(mod, "TRUSTED", []):
                 ctx.trust(t)
-            for rule_fn in mod.RULES:
+            def run_one(rule_fn):
                 try:
                     rule_fn(ctx)
                 except AnchorVanished as e:
@@ -56,6 +56,45 @@ def run_property(prop: str, tier: str, repo=None, quiet: bool = False, write_evi
                 except Exception as e:  # internal error of the checker: never a verdict
                     tb = traceback.format_exc().strip().splitlines()
                     ctx.error(f"internal error in {rule_fn.__name__}: {e!r} @ {tb[-3].strip() if len(tb) >= 3 else ''}")
+
+            def snapshot():
+                return (len(ctx.obligations), len(ctx.violations), len(ctx.errors), len(ctx.notes), dict(ctx.rules_applied), dict(ctx.rule_counts), set(ctx.functions_analysed))
+
+            def rollback(sn):
+                del ctx.obligations[sn[0]:]
+                del ctx.violations[sn[1]:]
+                del ctx.errors[sn[2]:]
+                del ctx.notes[sn[3]:]
+                ctx.rules_applied.clear(); ctx.rules_applied.update(sn[4])
+                ctx.rule_counts.clear(); ctx.rule_counts.update(sn[5])
+                ctx.functions_analysed.clear(); ctx.functions_analysed.update(sn[6])
+
+            def take(sn):
+                return (ctx.obligations[sn[0]:], ctx.violations[sn[1]:], ctx.errors[sn[2]:], ctx.notes[sn[3]:], dict(ctx.rules_applied), dict(ctx.rule_counts), set(ctx.functions_analysed))
+
+            def put(part):
+                ctx.obligations.extend(part[0]); ctx.violations.extend(part[1]); ctx.errors.extend(part[2]); ctx.notes.extend(part[3])
+                ctx.rules_applied.update(part[4]); ctx.rule_counts.update(part[5]); ctx.functions_analysed.update(part[6])
+
+            # Two views of the same program: with helpers that the pinned source does not know expanded at their call sites
+            # (sa/inliner.py), and as written.  They are behaviour-equivalent; a rule is satisfied when it is satisfied on either
+            # view; when neither view discharges it, what it reports on the source as written stands.
+            dual = repo.inlined_any
+            for rule_fn in mod.RULES:
+                sn = snapshot()
+                ctx.repo = repo
+                run_one(rule_fn)
+                if dual and (len(ctx.violations) > sn[1] or len(ctx.errors) > sn[2]):
+                    first = take(sn)
+                    rollback(sn)
+                    ctx.repo = repo.plain_view()
+                    run_one(rule_fn)
+                    second_clean = not (len(ctx.violations) > sn[1] or len(ctx.errors) > sn[2])
+                    if second_clean:
+                        ctx.note(f"{rule_fn.__name__}: decided on the source as written (the view with helpers expanded was not recognised)")
+                    # neither view is clean: the verdict of the source as written stands (the expanded view is used to
+                    # discharge a rule, never to accuse - its shapes are machine-made and less familiar to the rules)
+                    ctx.repo = repo
             if tier == "thorough":
                 try:
                     from .sweep import corpus_property, sweep_property
